@@ -7,8 +7,8 @@ import scipy.sparse as sps
 from ..oracles import mgh as OM
 
 ID = "C17"
-CASES = {"quick": 700, "thorough": 9000}
-MIN_NONTRIVIAL = {"quick": 250, "thorough": 3000}
+CASES = {"quick": 700, "thorough": 45000}
+MIN_NONTRIVIAL = {"quick": 250, "thorough": 5955}
 REQUIRED = ["every representation gives a valid bracket of the same distance", "identical labelling => identical lower bound across forms",
             "collection: symmetric matrices with zero diagonal", "collection: every entry brackets the pairwise distance",
             "collection: lower bounds equal the pair calls'", "fewer than 2 graphs rejected",
